@@ -304,6 +304,18 @@ def monOp (op : String) (args : List String) : Option String :=
         | .ok sp => if got == (sp.ownerPayout : Int) then "ok" else "viol C09-penalty-amount"
         | .error _ => "viol C09-penalty-amount"
       | .error _ => "viol C09-penalty-amount")
+  | "mon_pos_has_weight" => do
+    let (h, _) ← pBit args
+    some (if h then "ok" else "viol C10-position-without-weight")
+  | "mon_belief" => do
+    -- <belief price atomics> <tolerance|-> <offer> <net return>: the code's own check, evaluated by the model on what was paid
+    let (bp, ts) ← pNat args
+    let (tol, ts) ← pOptNat ts
+    let (offer, ts) ← pNat ts
+    let (net, _) ← pNat ts
+    some (match assertMaxSlippage (some bp) tol offer net 0 with
+      | .ok _ => "ok"
+      | .error _ => "viol C13-belief-price")
   | "mon_ss_slippage" => do
     -- <tolerance|-> <offer decimals> <ask decimals> <max decimals> <offer> <gross> <net return>
     let (tol, ts) ← pOptNat args
